@@ -172,9 +172,9 @@ Proofs/Cost.vos Proofs/Cost.vok Proofs/Cost.required_vos: Proofs/Cost.v Model/Ti
 Props/C13.vo Props/C13.glob Props/C13.v.beautified Props/C13.required_vo: Props/C13.v Props/Shipped.vo Model/ApiHist.vo Proofs/Purity.vo
 Props/C13.vio: Props/C13.v Props/Shipped.vio Model/ApiHist.vio Proofs/Purity.vio
 Props/C13.vos Props/C13.vok Props/C13.required_vos: Props/C13.v Props/Shipped.vos Model/ApiHist.vos Proofs/Purity.vos
-Props/C14.vo Props/C14.glob Props/C14.v.beautified Props/C14.required_vo: Props/C14.v Props/Shipped.vo Model/Ticks.vo Spec/Lex.vo Proofs/ScanRef.vo Proofs/Cost.vo Proofs/ParseGrammar.vo Proofs/ParseCost.vo
-Props/C14.vio: Props/C14.v Props/Shipped.vio Model/Ticks.vio Spec/Lex.vio Proofs/ScanRef.vio Proofs/Cost.vio Proofs/ParseGrammar.vio Proofs/ParseCost.vio
-Props/C14.vos Props/C14.vok Props/C14.required_vos: Props/C14.v Props/Shipped.vos Model/Ticks.vos Spec/Lex.vos Proofs/ScanRef.vos Proofs/Cost.vos Proofs/ParseGrammar.vos Proofs/ParseCost.vos
+Props/C14.vo Props/C14.glob Props/C14.v.beautified Props/C14.required_vo: Props/C14.v Props/Shipped.vo Model/Ticks.vo Spec/Lex.vo Proofs/ScanRef.vo Proofs/Cost.vo Proofs/ParseGrammar.vo Proofs/ParseCost.vo Model/ParseStack.vo Model/ParseStackTicks.vo Proofs/ParseStackCost.vo
+Props/C14.vio: Props/C14.v Props/Shipped.vio Model/Ticks.vio Spec/Lex.vio Proofs/ScanRef.vio Proofs/Cost.vio Proofs/ParseGrammar.vio Proofs/ParseCost.vio Model/ParseStack.vio Model/ParseStackTicks.vio Proofs/ParseStackCost.vio
+Props/C14.vos Props/C14.vok Props/C14.required_vos: Props/C14.v Props/Shipped.vos Model/Ticks.vos Spec/Lex.vos Proofs/ScanRef.vos Proofs/Cost.vos Proofs/ParseGrammar.vos Proofs/ParseCost.vos Model/ParseStack.vos Model/ParseStackTicks.vos Proofs/ParseStackCost.vos
 Spec/Spellings.vo Spec/Spellings.glob Spec/Spellings.v.beautified Spec/Spellings.required_vo: Spec/Spellings.v Model/Api.vo Spec/WF.vo
 Spec/Spellings.vio: Spec/Spellings.v Model/Api.vio Spec/WF.vio
 Spec/Spellings.vos Spec/Spellings.vok Spec/Spellings.required_vos: Spec/Spellings.v Model/Api.vos Spec/WF.vos
@@ -247,6 +247,12 @@ Model/ParseStack.vos Model/ParseStack.vok Model/ParseStack.required_vos: Model/P
 Proofs/ParseStack.vo Proofs/ParseStack.glob Proofs/ParseStack.v.beautified Proofs/ParseStack.required_vo: Proofs/ParseStack.v Model/Parse.vo Model/ParseStack.vo Spec/Grammar.vo Spec/Reject.vo Proofs/ParseGrammar.vo Proofs/RejectProof.vo
 Proofs/ParseStack.vio: Proofs/ParseStack.v Model/Parse.vio Model/ParseStack.vio Spec/Grammar.vio Spec/Reject.vio Proofs/ParseGrammar.vio Proofs/RejectProof.vio
 Proofs/ParseStack.vos Proofs/ParseStack.vok Proofs/ParseStack.required_vos: Proofs/ParseStack.v Model/Parse.vos Model/ParseStack.vos Spec/Grammar.vos Spec/Reject.vos Proofs/ParseGrammar.vos Proofs/RejectProof.vos
+Model/ParseStackTicks.vo Model/ParseStackTicks.glob Model/ParseStackTicks.v.beautified Model/ParseStackTicks.required_vo: Model/ParseStackTicks.v Model/ParseStack.vo
+Model/ParseStackTicks.vio: Model/ParseStackTicks.v Model/ParseStack.vio
+Model/ParseStackTicks.vos Model/ParseStackTicks.vok Model/ParseStackTicks.required_vos: Model/ParseStackTicks.v Model/ParseStack.vos
+Proofs/ParseStackCost.vo Proofs/ParseStackCost.glob Proofs/ParseStackCost.v.beautified Proofs/ParseStackCost.required_vo: Proofs/ParseStackCost.v Model/Parse.vo Model/ParseStack.vo Model/ParseStackTicks.vo Proofs/ParseGrammar.vo Proofs/ParseStack.vo
+Proofs/ParseStackCost.vio: Proofs/ParseStackCost.v Model/Parse.vio Model/ParseStack.vio Model/ParseStackTicks.vio Proofs/ParseGrammar.vio Proofs/ParseStack.vio
+Proofs/ParseStackCost.vos Proofs/ParseStackCost.vok Proofs/ParseStackCost.required_vos: Proofs/ParseStackCost.v Model/Parse.vos Model/ParseStack.vos Model/ParseStackTicks.vos Proofs/ParseGrammar.vos Proofs/ParseStack.vos
 Proofs/Subst.vo Proofs/Subst.glob Proofs/Subst.v.beautified Proofs/Subst.required_vo: Proofs/Subst.v Model/Parse.vo Spec/Grammar.vo Spec/Eval.vo Proofs/BytesFacts.vo Proofs/ParseGrammar.vo
 Proofs/Subst.vio: Proofs/Subst.v Model/Parse.vio Spec/Grammar.vio Spec/Eval.vio Proofs/BytesFacts.vio Proofs/ParseGrammar.vio
 Proofs/Subst.vos Proofs/Subst.vok Proofs/Subst.required_vos: Proofs/Subst.v Model/Parse.vos Spec/Grammar.vos Spec/Eval.vos Proofs/BytesFacts.vos Proofs/ParseGrammar.vos
